@@ -164,6 +164,13 @@ pub fn check(case: &Case) -> Verdict {
     let (exact_mul, bud_mul, ok_mul) = scaled(&rta, &rpa, &s_p, &s_pu, &rpm);
     let mut term_val: Option<Q> = None;
     if ok_mul {
+        // the result depends on the operands only
+        let h = crate::hist::mix(&[crate::hist::mix_str(&amt::key(ta)), crate::hist::mix_str(&amt::key(pm)), crate::hist::mix_str(&amt::key(pa)), case.term_unit as u64, case.per_unit as u64, case.p_unit as u64]);
+        if h % 4 == 0 {
+            if let Some(m) = crate::hist::independent(h, &|| crate::hist::show_q((r.rate_mul_qty)(r4, (pa, case.p_unit)))) {
+                fail!("{}: rate * value {}", note, m);
+            }
+        }
         let mut forms: Vec<(&str, Result<Q, String>)> = vec![("rate * value", catch(|| (r.rate_mul_qty)(r4, (pa, case.p_unit))))];
         if let Some(f) = r.qty_mul_rate {
             forms.push(("value * rate", catch(|| f((pa, case.p_unit), r4))));
